@@ -59,7 +59,7 @@ PROPS['C17'] = {
 }
 PROPS['C10'] = {
     'level': 'proof',
-    'vx': [{'unit': 'parse', 'functions': ['next', "Message<'a> :: from_bytes", 'RawAttribute', 'padded']}, {'unit': 'integrity', 'functions': ['validate_integrity']}],
+    'vx': [{'unit': 'parse', 'functions': ['next', "Message<'a> :: from_bytes", 'RawAttribute', 'padded', 'iter_attributes', 'raw_attribute', 'has_attribute', "Message<'a> :: attribute"]}, {'unit': 'integrity', 'functions': ['validate_integrity']}],
     'bx': ['c10'],
     'rule': 'Verus verification conditions of unit parse (iterator contract against the exposed-stream spec).',
     'proved': ['MessageAttributesIter::next yields exactly exposed_from(bytes, 20, 0): everything up to and including the first integrity attribute, MI-SHA256 directly after MI, FINGERPRINT; hidden attributes are skipped',
